@@ -123,8 +123,6 @@ def check_case(c):
         path = os.path.join(d, "im.fits")
         plane, ci = write_image(c, img, path)
         files = c.get("files", "none")
-        if c["ndim"] != 2:
-            files = "none"            # the output header is the input header: only 2-D inputs give 2-D files
         out_base = os.path.join(d, "out") if files != "none" else None
         out = run_bane(path, c, ci, grid, box, cores, stripes, out_base=out_base, compressed=(files == "compressed"))
         if out is None:
@@ -234,10 +232,12 @@ def check_case(c):
                             res.bad("compressed-file-values", "%s: expanding %s differs from the returned map by %.3g on "
                                     "complete grid cells" % (what, os.path.basename(fn), float(np.max(np.abs(a_ - b_)))), **tags)
             res.label("files-" + files)
-        # ---- the BANE command line gives the same maps (2-D inputs; default output names next to the image)
-        if c.get("cli") and c["ndim"] == 2 and not res.violations:
+        # ---- the BANE command line gives the same maps (default output names next to the image; --slice for cubes)
+        if c.get("cli") and not res.violations:
             from AegeanTools.CLI import BANE as bane_cli
             argv = [path, "--grid", str(grid), str(grid), "--box", str(box), str(box), "--cores", str(cores)]
+            if c["ndim"] > 2:
+                argv += ["--slice", str(ci)]
             if stripes is not None:
                 argv += ["--stripes", str(stripes)]
             if not c["mask"]:
